@@ -307,88 +307,167 @@ func runChild(prop, tier, only, resultPath string, seed int) {
 		res.Msg = "harness not found"
 		return
 	}
-	e := NewExec(prog)
-	e.ufApps = map[string][][2]*Term{}
-	e.harness = only
-	inc := "z3"
-	if meta.Solver == "z3new" {
-		inc = "z3new"
-	}
-	e.solver = NewIncSolver(inc)
-	defer e.solver.Close()
-	if meta.Unroll > 0 {
-		e.unroll = meta.Unroll
-	}
-	if meta.Opts["ints"] == "math" {
-		mathInts = true
-		res.Bounds["integers"] = "mathematical integers (no wrap-around modelled; harness bounds keep values far below 2^63)"
-	}
-	if meta.FP == "uf" {
-		e.fpRelaxed, e.fpUF = true, true
-		res.FPMode = "uninterpreted: float operators are uninterpreted functions (sound abstraction; proves equalities that follow from equal operands)"
-	} else if meta.FP == "relaxed" {
-		e.fpRelaxed = true
-		res.FPMode = "relaxed-real (every float op rounded within 2^-53 relative)"
-	} else {
-		res.FPMode = "exact IEEE-754 binary64 (SMT FloatingPoint)"
-	}
-	for k, v := range meta.Opts {
-		e.cfg[k] = v
-	}
-	e.cfg["tier"] = tier
-	e.replace = map[string]*ssa.Function{}
-	for target, by := range meta.Replace {
-		rf := spkg.Func(by)
-		if rf == nil {
-			res.Msg = "replace: harness function not found: " + by
-			return
-		}
-		e.replace[target] = rf
-	}
-	res.Bounds["unroll"] = fmt.Sprint(e.unroll)
-	timeout := 60
-	if tier == "thorough" {
-		timeout = 600
-	}
-	if meta.Timeout > 0 {
-		timeout = meta.Timeout
-	}
-	res.Bounds["solver_timeout_s"] = fmt.Sprint(timeout)
-
-	st := &State{Heap: map[int]Value{}}
-	func() {
-		defer func() {
-			if r := recover(); r != nil {
-				if u, ok := asUnsupported(r); ok {
-					res.Msg = "init: " + u.msg
-					return
-				}
-				panic(r)
-			}
-		}()
-		e.runInits(st, spkg)
-	}()
-	if meta.Conc {
-		e.conc = newConc(e)
-	}
+	var e *Exec
 	var outs []Outcome
 	execErr := ""
-	func() {
-		defer func() {
-			if r := recover(); r != nil {
-				if u, ok := asUnsupported(r); ok {
-					execErr = u.msg
-					return
+	timeout := 60
+	// shared plain memory: threads run on private heap copies; when the exploration shows that a thread could
+	// observe another thread's plain store (hazard), the locations involved are re-run as tracked shared cells
+	track := map[string]bool{}
+	for pass := 0; ; pass++ {
+		prevConc := (*ConcCtx)(nil)
+		if e != nil {
+			prevConc = e.conc
+		}
+		e = NewExec(prog)
+		e.track = track
+		e.stableIDs = pass > 0
+		e.ufApps = map[string][][2]*Term{}
+		e.harness = only
+		inc := "z3"
+		if meta.Solver == "z3new" {
+			inc = "z3new"
+		}
+		e.solver = NewIncSolver(inc)
+		defer func(s *IncSolver) { s.Close() }(e.solver)
+		if meta.Unroll > 0 {
+			e.unroll = meta.Unroll
+		}
+		if meta.Opts["ints"] == "math" {
+			mathInts = true
+			res.Bounds["integers"] = "mathematical integers (no wrap-around modelled; harness bounds keep values far below 2^63)"
+		}
+		if meta.FP == "uf" {
+			e.fpRelaxed, e.fpUF = true, true
+			res.FPMode = "uninterpreted: float operators are uninterpreted functions (sound abstraction; proves equalities that follow from equal operands)"
+		} else if meta.FP == "relaxed" {
+			e.fpRelaxed = true
+			res.FPMode = "relaxed-real (every float op rounded within 2^-53 relative)"
+		} else {
+			res.FPMode = "exact IEEE-754 binary64 (SMT FloatingPoint)"
+		}
+		for k, v := range meta.Opts {
+			e.cfg[k] = v
+		}
+		e.cfg["tier"] = tier
+		e.replace = map[string]*ssa.Function{}
+		for target, by := range meta.Replace {
+			rf := spkg.Func(by)
+			if rf == nil {
+				res.Msg = "replace: harness function not found: " + by
+				return
+			}
+			e.replace[target] = rf
+		}
+		res.Bounds["unroll"] = fmt.Sprint(e.unroll)
+		timeout = 60
+		if tier == "thorough" {
+			timeout = 600
+		}
+		if meta.Timeout > 0 {
+			timeout = meta.Timeout
+		}
+		res.Bounds["solver_timeout_s"] = fmt.Sprint(timeout)
+
+		st := &State{Heap: map[int]Value{}}
+		initErr := false
+		func() {
+			defer func() {
+				if r := recover(); r != nil {
+					if u, ok := asUnsupported(r); ok {
+						res.Msg = "init: " + u.msg
+						initErr = true
+						return
+					}
+					panic(r)
 				}
-				panic(r)
+			}()
+			e.runInits(st, spkg)
+		}()
+		if meta.Conc {
+			e.conc = newConc(e)
+			if prevConc != nil && e.stableIDs {
+				// object ids are pass-independent now: channel descriptions of the previous pass stay valid
+				for k, v := range prevConc.chans {
+					e.conc.chans[k] = v
+				}
+				for k, v := range prevConc.doneChains {
+					e.conc.doneChains[k] = v
+				}
+			}
+		}
+		outs = nil
+		execErr = ""
+		func() {
+			defer func() {
+				if r := recover(); r != nil {
+					if u, ok := asUnsupported(r); ok {
+						execErr = u.msg
+						return
+					}
+					panic(r)
+				}
+			}()
+			if e.conc != nil {
+				e.conc.runMain(e, st, fn)
+			} else {
+				outs = e.callValue(st, &Func{Fn: fn}, nil, false, "harness")
 			}
 		}()
-		if e.conc != nil {
-			e.conc.runMain(e, st, fn)
-		} else {
-			outs = e.callValue(st, &Func{Fn: fn}, nil, false, "harness")
+		if initErr {
+			return
 		}
-	}()
+		if e.conc == nil || execErr != "" {
+			break
+		}
+		hz, keys, untrackable := e.conc.plainHazards()
+		if len(hz) == 0 {
+			mc := e.conc.missedCandidates()
+			if len(mc) == 0 {
+				break
+			}
+			if os.Getenv("VERIF_HAZARD") != "" {
+				for _, m := range mc {
+					fmt.Fprintln(os.Stderr, "missed candidate (pass", pass, "):", m)
+				}
+			}
+			if pass >= 5 {
+				e.issues = append(e.issues, Issue{"unsupported", "shared plain memory: no fixpoint of read-from candidates after 6 passes: " + mc[0]})
+				break
+			}
+			e.conc.rememberStores()
+			e.solver.Close()
+			continue
+		}
+		if os.Getenv("VERIF_HAZARD") != "" {
+			for _, h := range hz {
+				fmt.Fprintln(os.Stderr, "plain-memory hazard (pass", pass, "):", h)
+			}
+		}
+		grew := false
+		for k := range keys {
+			if !track[k] {
+				grew = true
+			}
+		}
+		if untrackable || !grew || pass >= 5 {
+			e.issues = append(e.issues, Issue{"unsupported", "threads communicate through plain memory that is not modelled as shared: " + hz[0]})
+			break
+		}
+		nt := map[string]bool{}
+		for k := range track {
+			nt[k] = true
+		}
+		for k := range keys {
+			nt[k] = true
+		}
+		track = nt
+		e.conc.rememberStores()
+		e.solver.Close()
+	}
+	if len(track) > 0 {
+		res.Bounds["shared_plain_cells"] = "plain memory locations through which threads communicate, modelled as sequentially consistent cells: " + strings.Join(sortedKeys(track), " ; ")
+	}
 	if execErr != "" {
 		res.Status = "inconclusive"
 		res.Msg = "unsupported: " + execErr
